@@ -16,6 +16,8 @@ func init() {
 func c13(r *Report, s *Sem) {
 	p := r.P
 	a := s.anchors()
+	R14 := r.Rule("R14", "a terminal state set outside the receiver stops the receiver: the lock-only state setter is called with a terminal constant only inside the receiver goroutine's own call tree — terminating calls use the full setter, which cancels the receiver and waits for it (otherwise a receiver parked on a full inbound stream is never released)", 1)
+	checkTerminalThroughFullSetter(r, s, R14)
 	defer r.Import(s, "C08", "R6", "R13", "the initiator's connection is closed by the terminating call whatever terminal answer it gets: the client's read wrapper closes the transport for a failed as for a finished session (Client.Close drops the channel without closing it again)", 1)
 	R1 := r.Rule("R1", "the receiver goroutine registers, before any return, a deferred closure that closes the done signal and every inbound stream exactly once; these are their only close sites and the done parameter is the channel's own done field", 8)
 	R2 := r.Rule("R2", "entering a terminal state stops the receiver exactly once (per-channel sync.Once shared with Close) and the stop routine cancels the receiver's context and then waits for the done signal, under the receiver mutex, skipping both when the receiver never started", 5)
